@@ -351,6 +351,26 @@ def main(argv):
                                    "what": "REQ over %s, REP never reads, send() dropped after %d ms at its pipe-write await: %s"
                                            % (c["transport"], c["drop_ms"], bad),
                                    "case": c, "impl_obs": o, "harness": "c09"}, found_input=True)
+    # a dropped recv() loses nothing, inside a real tokio task: each recv() is polled once and dropped when Pending
+    po = [{"kind": "pollonce", "transport": tr, "n": n} for tr in ("inproc", "tcp") for n in ((200,) if tier == "quick" else (60, 200, 700))]
+    pobs, plog = C.run_harness("c09", po, PROP, tag="pollonce", timeout=300)
+    if pobs is None:
+        res.obligation(False, "poll-once drain probe could not run: " + str(plog)[-500:])
+    else:
+        for c, o in zip(po, pobs):
+            res.evaluations += 1
+            row = o["rows"][0]
+            if row[0] != 81:
+                res.notes.append("poll-once drain %s did not run to the end: %s" % (c, o["rows"]))
+                continue
+            res.nontrivial.add("pollonce:%s:%d" % (c["transport"], c["n"]))
+            res.count("pollonce:%s:%d of %d" % (c["transport"], row[2], row[1]))
+            if row[2] != row[1] or not row[3]:
+                res.violation({"property": PROP, "kind": "implementation violates property oracle",
+                               "what": "%d messages were queued on a PULL socket (%s); a task that polls each recv() once and drops it when "
+                                       "Pending received %d of them%s (missing %s): a message vanished with a dropped recv() future"
+                                       % (row[1], c["transport"], row[2], "" if row[3] else ", out of order", o.get("missing")),
+                               "case": c, "impl_obs": o, "harness": "c09"}, found_input=True)
     return res.finish(assumptions=[
         "tie is by outcome-set inclusion: polls of the real future and await points of the model are not 1:1; every "
         "implementation outcome must be one the model produces for some cancellation point, some bounded extra pipeline "
